@@ -678,7 +678,7 @@ class MeshRegion:
             return i - sum(
                 2 * n
                 for n in self.equilibriumRegion.nx[
-                    self.equilibriumRegion.separatrix_radial_index : self.radialIndex : -1  # noqa: E501
+                    self.radialIndex : self.equilibriumRegion.separatrix_radial_index
                 ]
             )
 
